@@ -173,3 +173,35 @@ PROPS["C05"] = dict(
     assumptions=["crypto_box_beforenm cannot signal failure in dryoc's signature: where libsodium refuses a peer key the value is not compared (counted in coverage.dimensions.beforenm)"],
     trusted_base=TB_COMMON,
 )
+
+# ---------------------------------------------------------------------------------------------- C06
+
+
+def _c06_floors(m, tier):
+    fams = ["valid_pure", "valid_prehashed", "pure_sig_to_prehashed_verify", "prehashed_sig_to_pure_verify", "S_plus_kL",
+            "sig_bit_flip", "pk_bit_flip", "msg_bit_flip", "msg_bit_flip_prehashed", "sig_bit_flip_prehashed",
+            "small_order_public_key(equation-valid forgery)", "small_order_R(S=k*a)", "small_order_R_prehashed"]
+    out = need(m, "negative_family", fams, "verification families")
+    if len(m.cov.get("small_order_A", {})) < 14 or len(m.cov.get("small_order_R", {})) < 14:
+        out.append("not all 14 small-order / non-canonical encodings used as A and as R")
+    out += need(m, "S_plus_kL_k", range(1, 15), "malleation multiples k")
+    out += need(m, "msg_len_mod128", range(128), "message length residues mod 128")
+    return out
+
+
+PROPS["C06"] = dict(
+    level="exploration",
+    technique="runtime differential monitoring: libsodium crypto_sign_* bytes and accept/reject decisions online over generated messages and an enumerated negative family (bit flips, S+kL, small-order A/R forgeries, mode cross-overs); RFC 8032 Python signer/verifier offline",
+    level_text="Signing through every classic and object entry point is compared byte-for-byte with libsodium for every message length 0..=L, in pure and pre-hashed mode; "
+               "verification decisions of every entry point are compared with libsodium on all single-bit mutations (exhaustively on a subset of cases), the full S+kL family, "
+               "equation-valid forgeries built on all 14 small-order / non-canonical encodings as A and as R, and mode cross-overs. Seeds and messages are sampled.",
+    level_note="This libsodium build is the default (non ED25519_COMPAT) one; its decision is the specification the property names. The Python RFC 8032 model re-checks a sample.",
+    runs=lambda tier: [dict(build="st", monitor="c06")],
+    offline=offline.check_c06,
+    models=["ed25519"],
+    floors=_c06_floors,
+    rule="positive cases: (seed, message) per length 0..=300 (quick) / 0..=1100+4KiB+64KiB (thorough); negative cases: one (signature, message, key) triple per mutation; "
+         "distinct by (length, seed index) resp. (encoding, repetition)",
+    assumptions=[],
+    trusted_base=TB_COMMON,
+)
